@@ -85,6 +85,22 @@ func (store *Store) GetBalances(ctx context.Context, query BalanceQuery) (ledger
 			if err != nil {
 				return nil, postgres.ResolveError(err)
 			}
+			if len(accountsVolumes) < len(conditions) {
+				// Some rows did not exist when the statement started: they have been inserted by the CTE above, by us or by a
+				// concurrent transaction we waited for, and neither is visible to this statement's snapshot (so nothing was
+				// locked nor read for them). Read and lock them with a new statement, which sees them.
+				err = store.db.NewSelect().
+					Model(&accountsVolumes).
+					ModelTableExpr(store.GetPrefixedRelationName("accounts_volumes")).
+					Column("accounts_address", "asset", "input", "output").
+					Where("("+strings.Join(conditions, ") OR (")+")", args...).
+					For("update").
+					Order("accounts_address", "asset").
+					Scan(ctx)
+				if err != nil {
+					return nil, postgres.ResolveError(err)
+				}
+			}
 
 			ret := ledger.Balances{}
 			for _, volumes := range accountsVolumes {
